@@ -983,3 +983,52 @@ def constprop(tier="quick"):
             out.append(mk("CONSTPROP", n, src, tag=f"{tn}/{c}", V=[0, 1, 2, 3], K=10, T=2, cap=128))
             n += 1
     return out
+
+
+
+# ----------------------------------------------------------------------------
+# INTRINSIC: IC10 instructions called as Python functions (statement and value forms) -- C01, C04
+
+def intrinsic(tier="quick"):
+    srcs = [
+        "x = add(d0.Setting, 2)\ndb.Setting = x\ndb.On = x * 2\n",
+        "x = d0.Setting\ny = sub(x, 1)\nz = mul(y, y)\ndb.Setting = div(z, 2) + mod(x, 3)\n",
+        "db.Setting = max(d0.Setting, d1.Setting)\ndb.On = min(d0.Setting, 1)\ndb.Mode = abs(d0.Setting - 2)\n",
+        "a = d0.Setting\nb = select(a > 1, 5, 6)\ndb.Setting = b\ndb.On = select(a, a + 1, 9)\n",
+        "push(d0.Setting)\npush(5)\na = pop()\nb = pop()\ndb.Setting = a * 10 + b\n",
+        "push(d0.Setting)\ndb.On = peek()\npush(peek() + 1)\ndb.Setting = pop() + pop()\n",
+        "poke(7, d0.Setting)\ndb.Setting = stack[7] + 1\nstack[8] = 4\ndb.On = get(db, 8) + get(db, 7)\n",
+        "put(db, 3, d0.Setting)\nx = get(db, 3)\nput(d1, 2, x + 1)\ndb.Setting = get(d2, 5) + x\n",
+        "x = l(d0, LogicType.Setting)\ndb.Setting = x + l(d1, LogicType.On)\n",
+        "m = d0.Setting\nx = m\nwhile x > 0:\n    push(x)\n    x = sub(x, 1)\nn = 0\nwhile n < m:\n    db.On = pop()\n    n = add(n, 1)\n",
+        "t = 0\nfor i in range(3):\n    t = add(t, mul(i, d0.Setting))\n    db.On = t\ndb.Setting = t\n",
+        "x = floor(d0.Setting / 2)\ny = ceil(d0.Setting / 2)\nz = round(d0.Setting / 2)\ndb.Setting = x * 100 + y * 10 + z\ndb.On = trunc(0 - d0.Setting / 2)\n",
+        "x = sqrt(d0.Setting)\ndb.Setting = x * x\ny = exp(log(d0.Setting + 1))\ndb.On = y\n",
+        "x = d0.Setting\ny = xor(x, 3)\nz = nor(x, 0)\ndb.Setting = y\ndb.On = sll(x, 2) + srl(8, x)\n",
+        "x = seq(d0.Setting, 1)\ny = sgt(d0.Setting, d1.Setting)\nz = snez(d0.Setting)\ndb.Setting = x * 100 + y * 10 + z\n",
+        "def f(a):\n    return add(a, mul(a, 2))\nwhile True:\n    db.Setting = f(d0.Setting)\n    db.On = f(1)\n    yield_()\n",
+        "x = move(d0.Setting)\ny = move(x)\nx = add(x, 1)\ndb.Setting = y\ndb.On = x\n",
+        "yield_()\ndb.Setting = d0.Setting\nsleep(2)\ndb.On = d0.Setting\n",
+    ]
+    out = []
+    for i, sx in enumerate(srcs):
+        out.append(mk("INTRINSIC", i, sx, V=[0, 1, 2, 3], K=10, T=3, cap=256, variants=[{}, {"compact": True, "remove_labels": True}, {"inline_functions": False}]))
+    return out
+
+
+def names_inline(tier="quick"):
+    """NAMES skeleton 4: a host function (called twice, not inlined, saves ra) that contains an inlined helper (called once) and
+    further calls; host / helper names from an alphabet in which one label is a textual suffix / prefix of the other."""
+    out = []
+    n = 0
+    alpha = ["tick", "on_tick", "step", "substep", "date", "update", "f", "f_f", "ff", "up", "dup", "fend", "f_end", "lbend2"]
+    for H, P in itertools.permutations(alpha, 2):
+        src = (
+            f"def {P}(k):\n    db.Mode = k\n    if k > 2:\n        return\n    db.Lock = k\n"
+            f"def rep(v):\n    db.On = v\n"
+            f"def {H}(a):\n    {P}(a)\n    rep(a + 100)\n    rep(a + 200)\n"
+            f"while True:\n    {H}(d0.Setting)\n    {H}(5)\n    db.Setting = 999\n    yield_()\n"
+        )
+        out.append(mk("NAMESINL", n, src, names=[H, P], V=[0, 1, 3], K=12, T=2, cap=32))
+        n += 1
+    return out
